@@ -285,6 +285,8 @@ def run(a):
         if ob.result["status"] == "vacuous":
             undecided.append({"obligation": ob.name, "why": "vacuity guard failed: the preconditions/hypotheses are contradictory"})
     replay_dir = os.path.join(ROOT, "replays", pid)
+    import shutil
+    shutil.rmtree(replay_dir, ignore_errors=True)
     for ob in ded:
         st = ob.result["status"]
         if st == "discharged":
